@@ -214,6 +214,12 @@ K7_U16X1 = dict(file=FU16, name="fv_k7_u16x1", code="""
         let r = run(px, &n);
         kani::cover!(r == 65535);
         assert!(r == fv_oracle32(&n, 0, &px));
+    }
+
+    #[kani::proof]
+    #[kani::unwind(6)]
+    fn k7_u16x1_taps_p45() {
+        let px: [u16; 3] = kani::any();
         let n2 = fv_norm32(45, &[(0, &[2147483647, 2147483647, -2147483648])]);
         assert!(run(px, &n2) == fv_oracle32(&n2, 0, &px));
     }
@@ -323,7 +329,8 @@ UNITS = [dict(
             dict(name="k7_u8x1_any_window_position_memory_safe", kind="bounded", timeout=1500, props=["C03"],
                  bound="4-pixel line, 2 windows of 1..=3 taps at ANY position satisfying WinInv, ANY taps, ANY precision 1..=21, ANY pixels",
                  claim="memory safety for arbitrary finite custom kernels: every unchecked read (row window, clip table) is in bounds, no panic, frame"),
-            dict(name="k7_u16x1_taps_fixed", kind="bounded", covers=1, timeout=900, props=["C01", "C03", "C10"], bound="two tap tables (precision 30 and 45), ALL u16 pixel values", claim="u16x1 horizontal kernel == fx (16 bit), no i64 overflow, frame"),
+            dict(name="k7_u16x1_taps_fixed", kind="bounded", covers=1, timeout=900, props=["C01", "C03", "C10"], bound="one tap table (precision 30), ALL u16 pixel values", claim="u16x1 horizontal kernel == fx (16 bit), no i64 overflow, frame"),
+            dict(name="k7_u16x1_taps_p45", kind="bounded", timeout=1500, tier="thorough", props=["C01", "C03"], bound="tap table at precision 45 (3 taps of extreme magnitude), ALL u16 pixel values", claim="u16x1 horizontal kernel == fx, no i64 overflow"),
             dict(name="k7_u16x1_pixels_fixed_any_taps", kind="bounded", timeout=900, props=["C01", "C03"], bound="pixel row [65535,1,40000], ALL i32 taps (2), precision 30", claim="u16x1 horizontal kernel == fx for every tap value"),
             dict(name="k7_vertical_u8_taps_fixed", kind="bounded", timeout=1500, props=["C01", "C03", "C05", "C09"], bound="U8 3x3 -> 2x2, column offset 0..=1 symbolic, one tap table, ALL pixel values, arbitrary stale destination",
                  claim="vertical u8 kernel == fx over the source column; result independent of the stale destination; spare pixel untouched"),
